@@ -7,9 +7,9 @@ stdout: RESULT {"cases": [result, ...]}
 result = {"steps": [light, ...],          # after build and after every operation
           "final": [entry, ...],           # full attribute DB dump (sorted by key)
           "lookups": {...}, "export": [...], "export_text": str,
-          "reimport": {"same": bool, "export": [...]} | {"exc": cls}}
+          "reimport": {"same": bool, "export": [...], "db": [...], "final": [...], "lookups": {...}} | {"exc": cls}}
        | {"exc": cls, "stage": "build" | "op<k>" | "export" | ..., + whatever was observed before}
-light  = {"db": [[key, cls, obj.handle], ...], "next": int|None, "svcs": [[handle, end_handle], ...]}
+light  = {"db": [[key, cls, obj.handle], ...] (dict iteration order), "next": int|None, "svcs": [[handle, end_handle], ...]}
 Only the public API is used, except `_Profile__handle` (next free handle; None if absent).
 """
 import sys, json, logging
@@ -175,14 +175,14 @@ def listed_services(p):
 
 
 def light(p):
-    db = sorted(p.db.items())
+    db = list(p.db.items())           # dict iteration order
     return {"db": [[k, cls_of(a), a.handle] for k, a in db],
             "next": getattr(p, "_Profile__handle", None),
             "svcs": [[s.handle, s.end_handle] for s in listed_services(p)]}
 
 
 def full(p):
-    return [entry(k, a) for k, a in sorted(p.db.items())]
+    return [entry(k, a) for k, a in p.db.items()]       # dict iteration order
 
 
 def guard(f):
@@ -210,7 +210,7 @@ def lookups(p, q):
     res["chr_end"] = [guard(lambda h=h: p.find_characteristic_end_handle(h)) for h in range(lo, nxt + 1)]
     res["ranges"] = [guard(lambda a=a, b=b: [[cls_of(o), o.handle] for o in p.find_objects_by_range(a, b)])
                      for a, b in q["ranges"]]
-    res["by_type"] = [guard(lambda u=u, a=a, b=b: sorted(o.handle for o in p.attr_by_type_uuid(mk_uuid(u), a, b)))
+    res["by_type"] = [guard(lambda u=u, a=a, b=b: [o.handle for o in p.attr_by_type_uuid(mk_uuid(u), a, b)])
                       for u, a, b in q["by_type"]]
     def svc_by(u):
         s = p.service(mk_uuid(u))
@@ -320,7 +320,8 @@ def run_case(case):
         q = Profile(from_json=j)
         j2 = q.export_json()
         res["reimport"] = {"same": j2 == j, "export": parse_export(j2),
-                           "db_keys": sorted(q.db.keys())}
+                           "db": light(q)["db"], "final": full(q),
+                           "lookups": lookups(q, case["queries"])}
     except Exception as e:  # noqa
         res["reimport"] = {"exc": type(e).__name__, "msg": str(e)[:200]}
     return res
